@@ -176,6 +176,16 @@ func (s *State) truth(c *Term) int {
 			if r < 0 {
 				r = s.ltByLinear(c.Args[0], c.Args[1])
 			}
+			// 0 < x for a length or unsigned x known to differ from 0
+			if r < 0 {
+				if z, ok := termInt(c.Args[0]); ok && z == 0 && (c.Args[1].Op == "len" || isUnsignedTerm(c.Args[1])) {
+					if v, ok := s.facts[tEq(c.Args[1], c.Args[0]).key]; ok && !v {
+						r = 1
+					} else if v, ok := s.facts[tEq(c.Args[1], tConst("0", nil)).key]; ok && !v {
+						r = 1
+					}
+				}
+			}
 			// replace an operand by a constant it is known to equal
 			for i := 0; i < 2 && r < 0; i++ {
 				if k, ok := s.constOf(c.Args[i]); ok {
@@ -528,6 +538,7 @@ type LoopInvClient interface {
 type Exec struct {
 	StrictConv     bool // integer conversions that may change the value yield opaque terms
 	NormSubslice   bool // s[lo:hi][j] is s[lo+j], len(s[lo:hi]) is hi-lo (opaque slices)
+	PreciseExits   bool // loop exits are recomputed from the entry values and from each back edge's values (rotation)
 	Comprehend     bool // summarise positional list comprehensions (exec_fam.go)
 	NComprehended  int
 	UniqueMake     bool // make([]T, n) yields a distinct term per site instead of an empty abstract list
@@ -1394,6 +1405,7 @@ func (x *Exec) execLoopUncached(fr *Frame, li *loopInfo, pred *ssa.BasicBlock, s
 		outs := x.execFromHeader(hf, li, hs)
 		x.marks = x.marks[:len(x.marks)-1]
 		var backs []*State
+		var backOuts []blockOut
 		var exits []blockOut
 		newPhi := map[*ssa.Phi]*Term{}
 		for ph, v := range phiVals {
@@ -1420,6 +1432,7 @@ func (x *Exec) execLoopUncached(fr *Frame, li *loopInfo, pred *ssa.BasicBlock, s
 					}
 					x.marks = x.marks[:len(x.marks)-1]
 				}
+				backOuts = append(backOuts, o)
 				backs = append(backs, x.renameBack(o.st, cur, all))
 				if pi >= 0 {
 					for _, ph := range phis {
@@ -1508,6 +1521,11 @@ func (x *Exec) execLoopUncached(fr *Frame, li *loopInfo, pred *ssa.BasicBlock, s
 					}
 				}
 				exits = kept
+			}
+			if x.PreciseExits && len(entryPhi) == len(phis) {
+				if pe, ok := x.preciseExits(fr, li, st, cur, phis, entryPhi, phiVals, backOuts, predIdx); ok {
+					exits = pe
+				}
 			}
 			var res []blockOut
 			for _, e := range exits {
@@ -1800,4 +1818,100 @@ func setMapEntriesKey(st *State, key string, addr *Term, es [][2]*Term) {
 		flat = append(flat, e[0], e[1])
 	}
 	st.mem[key] = cell{addr, mk("mapabs", "", nil, flat...)}
+}
+
+// preciseExits recomputes the exits of a stabilised loop by rotation: every
+// concrete iteration starts either from the loop entry or from the back edge
+// of the previous iteration, and the final round's back-edge states are the
+// abstract representatives of "the previous iteration".  Running the header
+// (and whatever follows, up to the next back edge) once from the entry values
+// and once from each back edge's concrete values therefore covers every exit,
+// and the exits keep the relation between the loop-carried variables and the
+// calls that produced them (`for ok && p(x) { ok, err = next() }; return ok,
+// err` returns the results of the last call, not an arbitrary pair).
+func (x *Exec) preciseExits(fr *Frame, li *loopInfo, st *State, cur *Term, phis []*ssa.Phi, entryPhi, phiVals map[*ssa.Phi]*Term, backOuts []blockOut, predIdx func(*ssa.BasicBlock) int) ([]blockOut, bool) {
+	var res []blockOut
+	run := func(f *Frame, s *State) {
+		x.marks = append(x.marks, cur)
+		outs := x.execFromHeader(f, li, s)
+		x.marks = x.marks[:len(x.marks)-1]
+		for _, o := range outs {
+			if o.kind != outBackEdge {
+				res = append(res, o)
+			}
+		}
+	}
+	// from the entry
+	hf := fr.clone()
+	for _, ph := range phis {
+		if v, ok := phiVals[ph]; ok && v.Op == "list" {
+			hf.env[ph] = entryPhi[ph]
+		} else {
+			hf.env[ph] = entryPhi[ph]
+		}
+	}
+	run(hf, st.clone())
+	// from each back edge of the last round
+	prev := mk("loopprev", cur.Aux, nil, cur.Args...)
+	for _, o := range backOuts {
+		pi := predIdx(o.from)
+		if pi < 0 {
+			return nil, false
+		}
+		s2 := substState(o.st, cur, prev)
+		f2 := o.fr.clone()
+		for k, v := range f2.env {
+			if v != nil {
+				f2.env[k] = v.subst(cur, prev)
+			}
+		}
+		for _, ph := range phis {
+			if v, ok := phiVals[ph]; ok {
+				f2.env[ph] = v // accumulating slices keep their summary value
+			} else {
+				f2.env[ph] = x.val(o.fr, ph.Edges[pi]).subst(cur, prev)
+			}
+		}
+		run(f2, s2)
+	}
+	return res, true
+}
+
+// substState: plain substitution of a term throughout a state.
+func substState(s *State, from, to *Term) *State {
+	n := newState(s.ghost.Subst(from, to))
+	n.trace = s.trace
+	n.steps = s.steps
+	for k, c := range s.mem {
+		if c.addr == nil {
+			n.mem[k] = c
+			continue
+		}
+		na := c.addr.subst(from, to)
+		nv := c.val
+		if nv != nil {
+			nv = nv.subst(from, to)
+		}
+		// keys are the address key, possibly behind a prefix (len:, epoch:, map:)
+		pre := ""
+		if strings.HasSuffix(k, c.addr.key) {
+			pre = strings.TrimSuffix(k, c.addr.key)
+		}
+		n.mem[pre+na.key] = cell{na, nv}
+	}
+	for k, v := range s.facts {
+		t := s.fterm[k].subst(from, to)
+		n.facts[t.key] = v
+		n.fterm[t.key] = t
+	}
+	for k, v := range s.vac {
+		n.vac[k] = v
+	}
+	for k, v := range s.done {
+		n.done[k] = v
+	}
+	for k, v := range s.drawn {
+		n.drawn[k] = v
+	}
+	return n
 }
